@@ -697,6 +697,19 @@ func (r *run) originConn(c *simnet.TCPConn) {
 	r.track(c)
 	defer c.Close()
 	s.Probe("c06.ep.origin")
+	if g.ch(6) == 0 {
+		// a mute origin: takes whatever is sent, answers nothing, then goes away
+		s.Probe("c06.origin.mute")
+		for i, n := 0, 1+g.ch(8); i < n; i++ {
+			if len(readSome(c, 5*time.Second)) == 0 {
+				break
+			}
+		}
+		if g.ch(2) == 0 {
+			c.SetLinger(0)
+		}
+		return
+	}
 	for round := 0; round < 4; round++ {
 		if len(readSome(c, 30*time.Second)) == 0 {
 			return
